@@ -114,9 +114,17 @@ def _bound_names (fn):
     elif isinstance(n, (ast.Global, ast.Nonlocal)): excl.update(n.names)
   # parameters of nested functions/lambdas that are passed by keyword somewhere cannot be renamed safely: keep it simple
   # and leave every nested parameter that also occurs as a keyword name alone
-  kws = set(k.arg for n in ast.walk(fn) if isinstance(n, ast.Call) for k in n.keywords if k.arg)
+  # ... except keywords of calls that go to a nested function by its plain name: those are renamed along with the parameter
+  nested_fn = dict((n.name, set(a.arg for a in ast.walk(n.args) if isinstance(a, ast.arg))) for n in ast.walk(fn) if n is not fn and isinstance(n, FUNC))
+  kws = set(k.arg for n in ast.walk(fn) if isinstance(n, ast.Call) for k in n.keywords if k.arg
+            and not (isinstance(n.func, ast.Name) and n.func.id in nested_fn and k.arg in nested_fn[n.func.id]))
   nested_params = set(a.arg for n in ast.walk(fn) if n is not fn and isinstance(n, FUNC + (ast.Lambda,)) for a in ast.walk(n.args) if isinstance(a, ast.arg))
   return out - excl - (nested_params & kws)
+
+def _own_keywords (fn):
+  """keyword nodes of calls to a nested function of fn (by plain name) that name one of its parameters"""
+  nested_fn = dict((n.name, set(a.arg for a in ast.walk(n.args) if isinstance(a, ast.arg))) for n in ast.walk(fn) if n is not fn and isinstance(n, FUNC))
+  return set(id(k) for n in ast.walk(fn) if isinstance(n, ast.Call) and isinstance(n.func, ast.Name) and n.func.id in nested_fn for k in n.keywords if k.arg in nested_fn[n.func.id])
 
 def function_skeleton (fn):
   """(digest, names): fn with every bound name replaced by its order of first appearance; docstrings ignored"""
@@ -128,8 +136,10 @@ def function_skeleton (fn):
     return '\x00L%d' % order[name]
   cp = copy.deepcopy(fn)
   own_params = set(params_of(fn))
+  okw = _own_keywords(cp)
   def walk (n, top):
     if isinstance(n, ast.Name) and n.id in B: n.id = idx(n.id)
+    elif isinstance(n, ast.keyword) and id(n) in okw and n.arg in B: n.arg = idx(n.arg)
     elif isinstance(n, ast.ExceptHandler) and n.name and n.name in B: n.name = idx(n.name)
     elif isinstance(n, FUNC) and not top and n.name in B: n.name = idx(n.name)
     elif isinstance(n, ast.arg) and n.arg in B and n.arg not in own_params: n.arg = idx(n.arg)
@@ -145,19 +155,119 @@ def function_skeleton (fn):
   names = [k for k, _ in sorted(order.items(), key=lambda kv: kv[1])]
   return hashlib.sha1(ast.dump(cp, annotate_fields=False).encode()).hexdigest()[:16], names
 
+def _is_private (nm):
+  return isinstance(nm, str) and nm.startswith('_') and not (nm.startswith('__') and nm.endswith('__')) and len(nm) > 1
+
+def member_skeleton (fn):
+  """(digest, names): like function_skeleton, additionally blind to how private members are called - every `_name` used as an
+  attribute or as a free (global) name is masked in the digest and listed, in order of appearance, in names; fn's own name is
+  masked too.  Two functions with the same digest differ at most in the spelling of locals and of private members."""
+  import hashlib
+  B = _bound_names(fn) | set(params_of(fn))
+  cp = copy.deepcopy(fn); cp.name = '@'
+  order = {}; priv = []
+  def idx (name):
+    if name not in order: order[name] = len(order)
+    return '\x00L%d' % order[name]
+  def walk (n):
+    if isinstance(n, ast.Name):
+      if n.id in B: n.id = idx(n.id)
+      elif _is_private(n.id): priv.append(n.id); n.id = '@'
+    elif isinstance(n, ast.Attribute):
+      walk(n.value)
+      if _is_private(n.attr): priv.append(n.attr); n.attr = '@'
+      return
+    elif isinstance(n, ast.ExceptHandler) and n.name: n.name = idx(n.name)
+    elif isinstance(n, FUNC) and n is not cp: n.name = idx(n.name)
+    elif isinstance(n, ast.arg): n.arg = idx(n.arg)
+    elif isinstance(n, ast.keyword) and n.arg is not None and _is_private(n.arg): priv.append(n.arg); n.arg = '@'
+    for f, v in ast.iter_fields(n):
+      if isinstance(v, list):
+        if f == 'body' and v and isinstance(v[0], ast.Expr) and isinstance(v[0].value, ast.Constant) and isinstance(v[0].value.value, str) and isinstance(n, FUNC + (ast.ClassDef,)):
+          v = v[1:]; setattr(n, f, v)
+        for x in v:
+          if isinstance(x, ast.AST): walk(x)
+      elif isinstance(v, ast.AST): walk(v)
+  walk(cp)
+  return hashlib.sha1(ast.dump(cp, annotate_fields=False).encode()).hexdigest()[:16], priv
+
 def module_skeletons (tree):
   out = {}
   def visit (body, prefix):
     for s in body:
       if isinstance(s, FUNC):
         d, names = function_skeleton(s)
-        out[prefix + s.name] = {'h': d, 'n': names}
+        hm, pv = member_skeleton(s)
+        out[prefix + s.name] = {'h': d, 'n': names, 'hm': hm, 'p': pv}
       elif isinstance(s, ast.ClassDef): visit(s.body, prefix + s.name + '.')
       elif isinstance(s, (ast.If, ast.Try)):
         for f in ('body', 'orelse', 'finalbody'): visit(getattr(s, f, []) or [], prefix)
         for h in getattr(s, 'handlers', []): visit(h.body, prefix)
   visit(tree.body, '')
   return out
+
+def private_names (tree):
+  out = set()
+  for n in ast.walk(tree):
+    if isinstance(n, ast.Attribute) and _is_private(n.attr): out.add(n.attr)
+    elif isinstance(n, ast.Name) and _is_private(n.id): out.add(n.id)
+    elif isinstance(n, FUNC + (ast.ClassDef,)) and _is_private(n.name): out.add(n.name)
+    elif isinstance(n, ast.keyword) and _is_private(n.arg): out.add(n.arg)
+    elif isinstance(n, ast.arg) and _is_private(n.arg): out.add(n.arg)
+  return out
+
+def member_renames (trees):
+  """N0m: recovery of consistently renamed private members (methods, attributes, module-level helpers).
+  trees: {module name: parsed tree} of the tree under analysis.  A name `new` that the reference vocabulary does not know is
+  taken to be the new spelling of the reference name `old` when
+    - functions that are otherwise identical to their reference versions (same member-blind digest) use `new` exactly where the
+      reference used `old` - or a function that vanished from a scope and a new one in the same scope are identical that way -,
+    - every such witness agrees on `old`, and
+    - no function of a scope that witnesses the renaming still mentions `old` (the renaming is complete there: a *partial*
+      replacement is a change of behaviour, not a renaming, and is left for the rules to see).
+  Returns {new: old}.  Nothing is guessed for functions whose bodies changed as well."""
+  ref = skeletons()
+  known = set(ref.get('<private-names>', {}).get('names', [])) if isinstance(ref.get('<private-names>'), dict) else set()
+  if not known: return {}
+  votes = {}; scopes = {}
+  cur_all = {}
+  for mod, tree in trees.items():
+    r = ref.get(mod)
+    if not r: continue
+    cur = module_skeletons(tree); cur_all[mod] = cur
+    def vote (a, b, scope):
+      if a == b: return
+      votes.setdefault(a, set()).add(b); scopes.setdefault(a, set()).add(scope)
+    for q_, c in cur.items():
+      rr = r.get(q_)
+      if rr is None or 'hm' not in rr: continue
+      if c['h'] != rr['h'] and c['hm'] == rr['hm'] and len(c['p']) == len(rr['p']):
+        for a, b in zip(c['p'], rr['p']): vote(a, b, (mod, q_.rsplit('.', 1)[0] if '.' in q_ else ''))
+    missing = [k for k in r if k not in cur and not k.startswith('<')]
+    extra = [k for k in cur if k not in r]
+    for m in missing:
+      pre = m.rsplit('.', 1)[0] if '.' in m else ''
+      cands = [e for e in extra if (e.rsplit('.', 1)[0] if '.' in e else '') == pre and cur[e]['hm'] == r[m].get('hm') and len(cur[e]['p']) == len(r[m].get('p', []))]
+      back = [m2 for m2 in missing if (m2.rsplit('.', 1)[0] if '.' in m2 else '') == pre and cands and r[m2].get('hm') == cur[cands[0]]['hm']]
+      if len(cands) == 1 and len(back) == 1:
+        e = cands[0]
+        vote(e.rsplit('.', 1)[-1], m.rsplit('.', 1)[-1], (mod, pre))
+        for a, b in zip(cur[e]['p'], r[m]['p']): vote(a, b, (mod, pre))
+  out = {}
+  for a, bs in votes.items():
+    if len(bs) != 1 or a in known or not _is_private(a): continue
+    b = next(iter(bs))
+    if not _is_private(b) or b not in known: continue
+    partial = False
+    for (mod, pre) in scopes[a]:
+      for q_, c in cur_all[mod].items():
+        if (q_.rsplit('.', 1)[0] if '.' in q_ else '') != pre: continue
+        if b in c['p'] or q_.rsplit('.', 1)[-1] == b: partial = True
+    if not partial: out[a] = b
+  # two new names for one old name: a member was split, not renamed
+  inv_ = {}
+  for a, b in out.items(): inv_.setdefault(b, []).append(a)
+  return dict((a, b) for a, b in out.items() if len(inv_[b]) == 1)
 
 def alpha_rename (tree, modname):
   """N0: a function whose shape is exactly the reference function's and that differs only in how its locals are called gets the
@@ -175,8 +285,10 @@ def alpha_rename (tree, modname):
         if d != r['h'] or names == r['n'] or len(names) != len(r['n']): continue
         m = dict((a, b) for a, b in zip(names, r['n']) if a != b)
         own_params = set(params_of(s))
+        okw = _own_keywords(s)
         for x in ast.walk(s):
           if isinstance(x, ast.Name) and x.id in m: x.id = m[x.id]
+          elif isinstance(x, ast.keyword) and id(x) in okw and x.arg in m: x.arg = m[x.arg]
           elif isinstance(x, ast.ExceptHandler) and x.name in m: x.name = m[x.name]
           elif isinstance(x, FUNC) and x is not s and x.name in m: x.name = m[x.name]
           elif isinstance(x, ast.arg) and x.arg in m and x.arg not in own_params: x.arg = m[x.arg]
